@@ -124,8 +124,16 @@ def run(ctx):
         store = "sqlite" if rng.chance(1, 3) else "mem"
         cfg = {"keep": True, "store": store, "mode": "free", "workers": workers, "cache_cap": cap, "stuck_secs": 90}
         answers = {pid: answers_for(answers_by_model[k], int(pid[1:])) for pid, k, _ in procs}
-        crowd = {"id": f"c13-{i}-crowd", "config": cfg, "models": models,
-                 "ops": [["deploy", k] for k in range(nmodels)] + [["swarm", {"starts": [[models[k]["id"], v] for _, k, v in procs], "parallel": True, "answers": answers}]]}
+        starts = [[models[k]["id"], v] for _, k, v in procs]
+        if i % 4 == 3:
+            # every process is dropped from the cache while it waits, and all come back in one batch (the refill of the cache that a tick or the
+            # end of a process triggers), before the clients go on
+            cfg["cache_cap"] = cap = rng.pick([2 * nproc, 1024])
+            body = [["swarm", {"starts": starts, "parallel": True, "answers": answers, "rounds": rng.below(2)}]] + \
+                   [["evict", pid] for pid, _, _ in procs] + [["tick", 1000], ["swarm", {"starts": [], "parallel": True, "answers": answers}]]
+        else:
+            body = [["swarm", {"starts": starts, "parallel": True, "answers": answers}]]
+        crowd = {"id": f"c13-{i}-crowd", "config": cfg, "models": models, "ops": [["deploy", k] for k in range(nmodels)] + body}
         # a second start with a live id is refused
         crowd["ops"].append(["start", models[0]["id"], {"pid": "p1"}])
         scs.append(crowd)
